@@ -3,6 +3,7 @@
 (*  batch    - the four parsers on a batch of strings: every observation must be TotalOk;       *)
 (*  meaning  - an abstract query, the texts it was printed as, and for each text and mode       *)
 (*             (default OR / conjunction) the documents the strict and the lenient parse match; *)
+(*  nested   - a nest of n levels (after the repair of C16-e);                                    *)
 (*  timeout / memout / crash / tool_error - no action: a parser that hangs, eats memory or      *)
 (*             kills the process is a violation of totality.                                     *)
 EXTENDS Grammar, Json, IOUtils, TLC
@@ -31,7 +32,11 @@ TMeaning ==
   /\ Ev.ev = "meaning"
   /\ (\A j \in 1..Len(Ev.obs) : ModeOk(Ev.q, Ev.obs[j].or, FALSE) /\ ModeOk(Ev.q, Ev.obs[j].and, TRUE)) = TRUE
 
-TNext == l <= Len(Rec) /\ l' = l + 1 /\ (TReset \/ TBatch \/ TMeaning)
+\* one nest pre^n x post^n (closed = with its closing parentheses) - only recorded once the nesting
+\* limit is in the code: nothing crashes, and the limit is where Grammar!NestingLimit says
+TNested == Ev.ev = "nested" /\ (TotalOk(Ev.obs) /\ DeepOk(Ev.n, Ev.closed, Ev.obs)) = TRUE
+
+TNext == l <= Len(Rec) /\ l' = l + 1 /\ (TReset \/ TBatch \/ TMeaning \/ TNested)
 TInit == l = 1
 TSpec == TInit /\ [][TNext]_l
 
